@@ -11,6 +11,8 @@
 //! In `exec` every step that has an `impl … for Result<Array<T>, ArrayError>` is run a second time on `Ok(array)` (the chained
 //! receiver): the twin's arrays are monitored, its class and shapes must equal the plain call's; the five getters are asked on both
 //! receivers for every returned array; option arguments are also passed in their other spellings (String / &str / enum).
+//! Model-growth round: `ediff1d`, `diff`, `insert_axis`, `convolve`, `modf`, `divmod`, `frexp` are modelled steps (`lean/ArrModel/C01Diff.lean`); on i64 chains whose
+//! values are the model's tags the first four carry the field `v` and the driver's answer `A<shape>:<values>` ties the ELEMENT VALUES too.
 //! Part 2 (round 3): std-trait steps (`u.it_*`, `u.clone*`, `u.re_*`: monitor + native expectation), hidden-state chains + A-B-A re-runs, ranks up to 8 and
 //! long argument lists, huge arrays with a native shape oracle (`native_rec`) validated against the model on every modelled step of the run.
 use arrharness::*;
@@ -470,7 +472,10 @@ fn run_modelled(st: &[V], name: &str, a: &[&str], ty: &str) -> Option<Out> {
 // ---------------------------------------------------------------- public operations outside the modelled set (monitor only)
 
 /// operations that joined the store machine later (names without prefix); the string operations joined as `s.<name>`
-const MODELLED_LATER: [&str; 6] = ["slice", "indices_at", "filter_map", "clip0", "clip1", "clip2"];
+const MODELLED_LATER: [&str; 13] = ["slice", "indices_at", "filter_map", "clip0", "clip1", "clip2", "ediff1d", "diff", "insert_axis", "convolve", "modf", "divmod", "frexp"];
+/// modelled operations whose element VALUES are compared with the model as well (i64 chains whose values are the model's tags: the
+/// generator appends the field `v` to the step, the driver then answers `A<shape>:<values>`)
+const VALUE_TIED: [&str; 4] = ["ediff1d", "diff", "insert_axis", "convolve"];
 /// strip the `u.` (monitor-only) / `s.` (string-array operation, modelled) prefix of a step name
 fn base_of(op: &str) -> &str { op.strip_prefix("u.").or_else(|| op.strip_prefix("s.")).unwrap_or(op) }
 /// a string-array operation (modelled `s.<name>`, or monitor-only `u.zfill`)
@@ -532,9 +537,16 @@ table2!(linalg_ops, linalg_ops_r, [NumericOps], |name, x, y: Option<&Array<N>>, 
         "det" => fin(x.det()), "qr" => fin(x.qr()), "eigvals" => fin(x.eigvals()), "eig" => fin(x.eig()),
         "solve" => fin(x.solve(y?)),
         "norm" => { let ord: Option<&str> = if a[1] == "none" { None } else { Some(a[1]) }; if ord.is_some() { variant_run(AS_STRING, || fin(x.norm(ord.map(str::to_string), oil(a[2]), obool(a[3])))); } fin(x.norm(ord, oil(a[2]), obool(a[3]))) }
-        "diff" => fin(x.diff(us(a[1]), oisz(a[2]), None, None)),
-        "ediff1d" => fin(x.ediff1d(None, None)),
         "unwrap_phase" => fin(x.unwrap_phase(None, oisz(a[1]), None)),
+        _ => return None,
+    })
+});
+// `ediff1d|@a|to_end|to_begin` and `diff|@a|n|axis|prepend|append` (optional array arguments: a store position or `none`)
+table2!(diff_ops, diff_ops_r, [NumericOps + FromV], |name, x, st: &[V], a: &[&str]| {
+    let opt = |i: usize| -> Option<Option<Array<N>>> { match a.get(i) { None | Some(&"none") => Some(None), Some(r) => N::from_v(get(st, r)?).map(|y| Some(y.clone())) } };
+    Some(match name {
+        "ediff1d" => match (opt(1), opt(2)) { (Some(e), Some(b)) => fin(x.ediff1d(e, b)), _ => skip() },
+        "diff" => match (opt(3), opt(4)) { (Some(p), Some(q)) => fin(x.diff(us(a[1]), oisz(a[2]), p, q)), _ => skip() },
         _ => return None,
     })
 });
@@ -736,7 +748,13 @@ fn run_unmodelled(st: &[V], name: &str, a: &[&str], ty: &str) -> Option<Out> {
         "frexp" => on_types!(g!(0), [F64], |x| x.frexp()),
         "logspace" => ctor_num!(ty, |T| Array::<T>::logspace(<T as Numeric>::from_f64(a[0].parse().unwrap()), <T as Numeric>::from_f64(a[1].parse().unwrap()), ousz(a[2]), obool(a[3]), None)),
         "geomspace" => ctor_num!(ty, |T| Array::<T>::geomspace(<T as Numeric>::from_f64(a[0].parse().unwrap()), <T as Numeric>::from_f64(a[1].parse().unwrap()), ousz(a[2]), obool(a[3]))),
-        "det" | "qr" | "eigvals" | "eig" | "solve" | "norm" | "diff" | "ediff1d" | "unwrap_phase" => {
+        "diff" | "ediff1d" => {
+            let r = match g!(0) {
+                V::I32(x) => both(diff_ops(name, x, st, a), || diff_ops_r(name, &Ok(x.clone()), st, a)), V::I64(x) => both(diff_ops(name, x, st, a), || diff_ops_r(name, &Ok(x.clone()), st, a)),
+                V::F64(x) => both(diff_ops(name, x, st, a), || diff_ops_r(name, &Ok(x.clone()), st, a)), V::I8(x) => both(diff_ops(name, x, st, a), || diff_ops_r(name, &Ok(x.clone()), st, a)), _ => Some(skip()) };
+            r.unwrap_or_else(skip)
+        }
+        "det" | "qr" | "eigvals" | "eig" | "solve" | "norm" | "unwrap_phase" => {
             let r = match (g!(0), a.get(1).and_then(|s| get(st, s))) {
                 (V::I32(x), y) => both(linalg_ops(name, x, y.and_then(FromV::from_v), a), || linalg_ops_r(name, &Ok(x.clone()), y.and_then(FromV::from_v), a)), (V::I64(x), y) => both(linalg_ops(name, x, y.and_then(FromV::from_v), a), || linalg_ops_r(name, &Ok(x.clone()), y.and_then(FromV::from_v), a)),
                 (V::F64(x), y) => both(linalg_ops(name, x, y.and_then(FromV::from_v), a), || linalg_ops_r(name, &Ok(x.clone()), y.and_then(FromV::from_v), a)), _ => Some(skip()) };
@@ -779,7 +797,7 @@ const TYPES: [&str; 8] = ["i32", "i64", "u8", "usize", "f64", "bool", "str", "t2
 /// the robustness stream adds the third byte-sized element type
 const TYPES2: [&str; 10] = ["i32", "i64", "u8", "usize", "f64", "bool", "str", "t2", "i8", "u8"];
 /// operations whose result VALUES are the model's values when the inputs' are (element type i64)
-const FAITHFUL: [&str; 58] = ["new", "create", "single", "flat", "empty", "zeros", "ones", "full", "zeros_like", "ones_like", "full_like", "eye", "identity", "tri",
+const FAITHFUL: [&str; 62] = ["ediff1d", "diff", "insert_axis", "convolve", "new", "create", "single", "flat", "empty", "zeros", "ones", "full", "zeros_like", "ones_like", "full_like", "eye", "identity", "tri",
     "diag", "diagflat", "tril", "triu", "transpose", "moveaxis", "rollaxis", "swapaxes", "expand_dims", "squeeze", "reshape", "resize", "ravel", "atleast",
     "cycle_take", "apply_along_axis", "broadcast_to", "broadcast_arrays", "array_split", "split", "split_axis", "hsplit", "vsplit", "dsplit", "member",
     "concatenate", "stack", "vstack", "hstack", "dstack", "column_stack", "row_stack", "flip", "flipud", "fliplr", "roll", "rot90", "delete", "insert", "append",
@@ -792,10 +810,10 @@ const OPS_ALL: [&str; 56] = ["transpose", "moveaxis", "rollaxis", "swapaxes", "e
     "apply_along_axis", "broadcast_to", "broadcast", "broadcast_arrays", "zip", "array_split", "split", "split_axis", "hsplit", "vsplit", "dsplit", "member",
     "concatenate", "stack", "vstack", "hstack", "dstack", "column_stack", "row_stack", "flip", "flipud", "fliplr", "roll", "rot90", "delete", "insert", "append",
     "repeat", "trim_zeros", "map", "map_e", "filter_e", "filter_map_e", "filter", "count_nonzero", "argmax", "argmin", "sort", "argsort", "unique",
-    "slice", "indices_at", "u.insert_axis", "u.for_each", "filter_map"];
-const OPS_NUM_EXTRA: [&str; 17] = ["zeros_like", "ones_like", "full_like", "diag", "diagflat", "tril", "triu", "vander", "clip", "clip0", "clip1", "clip2", "round", "u.modf",
-    "u.divmod", "u.convolve", "u.linspace_a"];
-const OPS_OPS_EXTRA: [&str; 16] = ["vdot", "outer", "inner", "matmul", "dot", "op_neg", "u.det", "u.qr", "u.eigvals", "u.eig", "u.solve", "u.norm", "u.diff", "u.ediff1d", "u.unwrap_phase", "u.fold"];
+    "slice", "indices_at", "insert_axis", "u.for_each", "filter_map"];
+const OPS_NUM_EXTRA: [&str; 17] = ["zeros_like", "ones_like", "full_like", "diag", "diagflat", "tril", "triu", "vander", "clip", "clip0", "clip1", "clip2", "round", "modf",
+    "divmod", "convolve", "u.linspace_a"];
+const OPS_OPS_EXTRA: [&str; 16] = ["vdot", "outer", "inner", "matmul", "dot", "op_neg", "u.det", "u.qr", "u.eigvals", "u.eig", "u.solve", "u.norm", "diff", "ediff1d", "u.unwrap_phase", "u.fold"];
 const OPS_STR: [&str; 10] = ["u.zfill", "s.translate", "s.splitlines", "s.multiply", "s.center", "s.ljust", "s.rjust", "s.split", "s.rsplit", "s.replace"];
 
 /// robustness streams part 2: steps through the std traits of `Array` (`u.` = outside the modelled set: C01 monitor + native expectation)
@@ -980,7 +998,9 @@ impl G {
             "reshape" => { let ns = self.reshape_target(&s); format!("@{}|{}", i, show_list(&ns)) }
             "resize" => { let ns = self.shape(); format!("@{}|{}", i, show_list(&ns)) }
             "ravel" | "flipud" | "fliplr" | "map" | "map_e" | "zeros_like" | "ones_like" | "full_like" | "op_neg" | "op_not" | "for_each" | "fold" | "filter_map" | "modf" | "divmod" | "frexp"
-                | "det" | "qr" | "eigvals" | "eig" | "ediff1d" | "clip0" | "translate" => format!("@{}", i),
+                | "det" | "qr" | "eigvals" | "eig" | "clip0" | "translate" => format!("@{}", i),
+            "ediff1d" => { let mut f = vec![]; for _ in 0..2 { f.push(if self.coin(60) { "none".to_string() } else { let ps = if self.coin(80) { vec![self.rng.below(4)] } else { self.shape() }; format!("@{}", self.partner(i, ps)) }); }
+                format!("@{}|{}|{}", i, f[0], f[1]) }
             "trim_zeros" | "filter" => format!("@{}", i),
             "atleast" => format!("@{}|{}", i, self.rng.below(5)),
             "cycle_take" => format!("@{}|{}", i, self.rng.below(2 * n + 3)),
@@ -1022,8 +1042,14 @@ impl G {
                 let k = self.rng.below(3); let ix: Vec<usize> = (0..k).map(|_| if self.coin(7) { lim + 1 } else { self.rng.below(lim.max(1)) }).collect(); format!("@{}|{}|{}", i, show_list(&ix), ax) }
             "insert" => { let k = 1 + self.rng.below(2); let ix: Vec<usize> = (0..k).map(|_| if self.coin(6) { n + 2 } else { self.rng.below(n + 1) }).collect();
                 let vs = if self.coin(50) { vec![1] } else if self.coin(80) { vec![k] } else { self.shape() }; let j = self.partner(i, vs); format!("@{}|{}|@{}", i, show_list(&ix), j) }
-            "insert_axis" => { let ax = self.uaxis(r); let d = s.get(ax).copied().unwrap_or(1); let ix = vec![self.rng.below(d + 1)]; let mut vs = s.clone(); if ax < vs.len() { vs[ax] = 1; }
-                let j = if self.coin(50) { self.partner(i, vs) } else { self.partner(i, vec![1]) }; format!("@{}|{}|@{}|{}", i, show_list(&ix), j, ax) }
+            "insert_axis" => { let ax = self.uaxis(r); let d = s.get(ax).copied().unwrap_or(1);
+                // the number of indices must broadcast against the FIRST axis length (that is what the code checks): mostly 1 or s[0]
+                let k = match self.rng.below(10) { 0..=4 => 1, 5..=7 => s.first().copied().unwrap_or(1).min(4), 8 => 2, _ => self.rng.below(4) };
+                let ix: Vec<usize> = (0..k).map(|_| if self.coin(5) { d + 1 + self.rng.below(2) } else { self.rng.below(d + 1) }).collect();
+                let mut vs = s.clone(); if ax < vs.len() { vs[ax] = 1; }
+                let vs = match self.rng.below(10) { 0..=2 => vs, 3..=4 => vec![1], 5 => { if ax < vs.len() { vs[ax] = k; } vs } 6 => vs.iter().map(|&d| if self.rng.below(2) == 0 { 1 } else { d }).collect(),
+                    7 => { let c = self.rng.below(vs.len() + 1); vs[c..].to_vec() } 8 => vec![k.max(1)], _ => self.shape() };
+                let j = self.partner(i, vs); format!("@{}|{}|@{}|{}", i, show_list(&ix), j, ax) }
             "append" => { let ax = self.ouaxis(r); let mut ps = s.clone(); if let Ok(k) = ax.parse::<usize>() { if k < ps.len() { ps[k] = self.rng.below(4); } } else if self.coin(60) { ps = self.shape(); }
                 if self.coin(6) { ps = self.shape(); } let j = self.partner(i, ps); format!("@{}|@{}|{}", i, j, ax) }
             "repeat" => { let ax = self.ouaxis(r); let lim = if ax == "none" { n } else { s.get(ax.parse::<usize>().unwrap_or(0)).copied().unwrap_or(1) };
@@ -1048,7 +1074,11 @@ impl G {
             "convolve" => { let j = if self.coin(80) { let m = 1 + self.rng.below(4); self.fresh(t, &[m]) } else { let ps = self.shape(); self.partner(i, ps) }; format!("@{}|@{}|{}", i, j, *self.rng.pick(&["none", "full", "valid", "same", "bogus"])) }
             "norm" => { let ord = *self.rng.pick(&["none", "fro", "nuc", "inf", "-inf", "1", "2", "-1", "0", "bogus"]);
                 let ax = if self.coin(50) { "none".to_string() } else if self.coin(50) { self.axis(r).to_string() } else { show_list(&[self.axis(r), self.axis(r)]) }; format!("@{}|{}|{}|{}", i, ord, ax, self.kd()) }
-            "diff" => format!("@{}|{}|{}", i, self.rng.below(3), self.oaxis(r)),
+            "diff" => { let ax = self.oaxis(r); let k = match ax.parse::<isize>() { Ok(x) if x < 0 => (x + r as isize).max(0) as usize, Ok(x) => x as usize, Err(_) => r.saturating_sub(1) };
+                let mut f = vec![]; for _ in 0..2 { f.push(if self.coin(60) { "none".to_string() } else {
+                    let mut ps = s.clone(); if k < ps.len() { ps[k] = if self.coin(85) { 1 + self.rng.below(2) } else { self.rng.below(2) * 3 }; } if self.coin(12) { ps = self.compat(&s); }
+                    format!("@{}", self.partner(i, ps)) }); }
+                format!("@{}|{}|{}|{}|{}", i, self.rng.below(4), ax, f[0], f[1]) }
             "ldexp" => { let ps = self.compat(&s); let nn: usize = ps.iter().product(); let j = self.push(format!("new|{}|{}|{}|#i32", nn, -1, show_list(&ps))); format!("@{}|@{}", i, j) }
             "zfill" => format!("@{}|{}", i, self.rng.below(9)),
             "splitlines" => format!("@{}|{}", i, self.kd()),
@@ -1073,6 +1103,12 @@ impl G {
         if VALDEP.contains(&b) && !op.starts_with("u.") {
             let all_f = step_refs(&format!("x|{}", step)).iter().all(|&k| self.faithful.get(k).copied().unwrap_or(false));
             if !all_f { name = format!("u.{}", b); }
+        }
+        // the value tie: on an i64 chain whose values are the model's tags the step asks the driver for the element values too
+        let mut step = step;
+        if VALUE_TIED.contains(&name.as_str()) && t == "i64" {
+            let rs = step_refs(&format!("x|{}", step));
+            if rs.iter().all(|&k| self.faithful.get(k).copied().unwrap_or(false) && matches!(&self.store[k], V::I64(_))) { step.push_str("|v"); }
         }
         self.push(format!("{}|{}", name, step));
         true
@@ -1205,7 +1241,7 @@ fn all_ops() -> Vec<String> {
     v.extend(OPS_OPS_EXTRA.iter().map(|s| s.to_string()));
     for l in [&FOLD_OPS[..], &EXTREME_OPS[..], &SCAN_OPS[..], &UNARY_NUM[..], &UNARY_OPS[..], &UNARY_FLT[..], &BIN_OPS[..], &BIN_FLT[..]] { v.extend(l.iter().map(|s| s.to_string())); }
     v.extend(BIN_NUM.iter().filter(|s| **s != "_").map(|s| s.to_string()));
-    v.extend(["ldexp", "unpack_bits", "pack_bits", "u.frexp", "around", "u.geomspace_a", "u.logspace_a", "s.compare"].iter().map(|s| s.to_string()));
+    v.extend(["ldexp", "unpack_bits", "pack_bits", "frexp", "around", "u.geomspace_a", "u.logspace_a", "s.compare"].iter().map(|s| s.to_string()));
     for o in ["add", "sub", "mul", "div", "rem", "bitand", "bitor", "bitxor"] { for sfx in ["", "_s", "_assign", "_assign_s"] { v.push(format!("op_{}{}", o, sfx)); } }
     v.push("op_not".into());
     v.extend(OPS_STR.iter().map(|s| s.to_string()));
@@ -1277,6 +1313,29 @@ fn gen_all(tier: &str, seed: u64, out: &mut dyn FnMut(String)) {
             }
         }
     }
+    // (ii-b) the operations of `ArrModel/C01Diff.lean` (ediff1d, diff, insert with an axis, convolve): every arm of their models -
+    //        each base shape, several argument draws (order of the difference 0..3, every axis spelling incl. out of range,
+    //        prepend / append present / absent / non-fitting, 0..4 insert positions, values of every broadcastable and
+    //        non-broadcastable shape, the three convolve modes and a bad one) on i64 (values compared too) and two further types
+    for (oi, op) in ["ediff1d", "diff", "insert_axis", "convolve"].iter().enumerate() {
+        let tys: &[&'static str] = match *op { "insert_axis" => &["i64", "str", "u8", "bool"], "convolve" => &["i64", "u8", "f64"], _ => &["i64", "i32", "f64"] };
+        for (ti, ty) in tys.iter().enumerate() {
+            for (bi, base) in bases.iter().enumerate() {
+                let reps = if ti == 0 { if thorough { 24 } else { 10 } } else if thorough { 8 } else { 3 };
+                for rep in 0..reps {
+                    let mut g = G::new(0xD1FF + (oi * 100000 + ti * 10000 + bi * 100 + rep) as u64, ty);
+                    // tag values are an arithmetic progression (all second differences 0): two draws in three work on a sawtooth
+                    // (a short array cycled into the base shape) or on a rolled / transposed array instead
+                    match rep % 3 {
+                        1 => { let k = 2 + g.rng.below(4); let off = g.rng.range(-3, 9); g.push(format!("new|{}|{}|{}|#{}", k, off, k, ty)); g.push(format!("resize|@0|{}", show_list(base))); }
+                        2 => { g.fresh(ty, base); let k = g.rng.range(1, 5); g.push(format!("roll|@0|{}|none", k)); if base.len() >= 2 && g.coin(50) { g.push("transpose|@1|none".to_string()); } }
+                        _ => { g.fresh(ty, base); }
+                    }
+                    if g.emit(op) { if g.coin(30) { g.emit(op); } emit_chain(&g, out); }
+                }
+            }
+        }
+    }
     // (iii) the refusal stream: element count that does not fit the requested shape
     for ty in TYPES { for s in [vec![2usize, 3], vec![0], vec![], vec![1, 1], vec![2, 0, 2], vec![3]] {
         let p: usize = s.iter().product();
@@ -1327,7 +1386,7 @@ fn gen_all(tier: &str, seed: u64, out: &mut dyn FnMut(String)) {
     //      counts > 256, > 1024, > 4096).  The store machine is quadratic in the element count for several operations, so the
     //      shapes above 1000 elements get fewer operations / element types (quick), the full inventory runs up to 700 elements.
     {
-        let heavy = ["vdot", "outer", "inner", "matmul", "dot", "vander", "u.convolve", "u.linspace_a", "u.geomspace_a", "u.logspace_a", "u.det", "u.qr", "u.eigvals", "u.eig", "u.solve", "u.norm"];
+        let heavy = ["vdot", "outer", "inner", "matmul", "dot", "vander", "convolve", "u.linspace_a", "u.geomspace_a", "u.logspace_a", "u.det", "u.qr", "u.eigvals", "u.eig", "u.solve", "u.norm"];
         let cheap = ["reshape", "ravel", "flip", "roll", "op_bitand", "op_bitxor_assign", "op_bitor_s", "broadcast_to", "atleast", "expand_dims", "squeeze", "repeat", "argmax", "count_nonzero",
             "transpose", "resize", "cycle_take", "map", "op_add", "negative", "max", "sum", "cumsum", "array_split", "concatenate", "sort", "delete", "append", "slice", "op_not"];
         let medium: Vec<Vec<usize>> = vec![vec![300], vec![17, 16], vec![5, 5, 5, 5], vec![1, 16, 1, 17], vec![9, 9], vec![7, 1, 9], vec![3, 2, 8], vec![16, 17], vec![2, 8, 3], vec![8, 2, 3], vec![2, 3, 4, 5, 2], vec![64], vec![100]];
@@ -1604,7 +1663,10 @@ fn run_chain(steps: &[&str]) -> (Vec<String>, Vec<(usize, String)>, Vec<Option<S
         natives.push(catch_unwind(AssertUnwindSafe(|| native_rec(&store, fields[0].strip_prefix("u.").unwrap_or(fields[0]), &fields[1..]))).unwrap_or(None));
         let o = run_step(&store, st, &mut b);
         for m in b { bad.push((i, m)); }
-        recs.push(if o.cls == "unknown" { "?".to_string() } else { record(&o) });
+        let mut rec = if o.cls == "unknown" { "?".to_string() } else { record(&o) };
+        // a value-tied step (last field `v`): the element values are part of the record
+        if st.ends_with("|v") && VALUE_TIED.contains(&fields[0]) { if let (true, V::I64(arr)) = (o.cls == "ok", &o.v) { rec = format!("{}:{}", rec, show_list(&arr.get_elements().unwrap_or_default())); } }
+        recs.push(rec);
         store.push(if o.cls == "ok" { o.v } else { V::Nil });
     }
     (recs, bad, natives)
@@ -1705,5 +1767,5 @@ fn nontrivial(_op: &str, args: &[&str]) -> bool {
 
 fn main() {
     harness_main(Spec { prop: "C01", gen, exec, nontrivial, hang_secs: 30,
-        rule: "one case = one chain of public operations on earlier results. Enumerated: every operation of the inventory (modelled and `u.` = monitor-only) as a one-step chain on base arrays of every applicable element type and shapes incl. rank 0..4, unit axes, zero-length axes; the refusal stream (new/create/reshape/resize/broadcast_to with non-fitting counts); then seeded random chains (length 1..12 quick, 1..40 thorough) typed so that most steps apply. After EVERY step the real result (each member of a Vec/tuple) is checked: elements.len()==product(shape), len(), ndim(), is_empty() agree. Modelled steps are also compared with the store machine on outcome class and shape. Robustness streams: every step with a Result-receiver impl is also called on Ok(array) (monitored, same class and shapes required); len/ndim/is_empty/get_shape/get_elements are also asked through Ok(array) for every returned array; option arguments as String / &str / enum; i8 as third byte-sized type; base shapes with zero-length axes in every position and >= 32 elements; refusal stream around zero-length axes; one-step chains on shapes up to 4900 elements; random chains over zero-length / long axes. PART 2: std-trait steps (FromIterator from 29 kinds of exact / over-estimating / unbounded / empty iterators collected three ways, IntoIterator by value and by reference, clone, clone_from through every std path with targets of lower / equal / higher rank, Vec / slice / VecDeque / boxed-slice clone_from between split results, re-entrant closures) with the monitor and a native expectation, on ten element types x 18 base shapes and inside random chains; aliased operands; hidden state: colliding shape groups back to back in both orders through the count-checking constructors / reshapes and 18 further operations, and an A-B-A re-run of every fourth chain's predecessor; ranks 5..8, argument lists of 3..6 unsorted mixed-spelling entries, 65..130 parts, 5..8 arrays; huge arrays (16 384..196 611 elements): linear-model operations as modelled steps, quadratic-model operations as `u.` steps judged by a harness-native shape oracle that the same run validates against the model on every modelled step it speaks about (last case line reports the counts). distinct = distinct chains; non-trivial = some step consumes the result of a step that consumed an earlier result" });
+        rule: "one case = one chain of public operations on earlier results. Enumerated: every operation of the inventory (modelled and `u.` = monitor-only) as a one-step chain on base arrays of every applicable element type and shapes incl. rank 0..4, unit axes, zero-length axes; the refusal stream (new/create/reshape/resize/broadcast_to with non-fitting counts); then seeded random chains (length 1..12 quick, 1..40 thorough) typed so that most steps apply. After EVERY step the real result (each member of a Vec/tuple) is checked: elements.len()==product(shape), len(), ndim(), is_empty() agree. Modelled steps are also compared with the store machine on outcome class and shape (ediff1d / diff / insert with an axis / convolve on value-faithful i64 chains also on the element values; a dedicated stream draws their arguments on every base shape). Robustness streams: every step with a Result-receiver impl is also called on Ok(array) (monitored, same class and shapes required); len/ndim/is_empty/get_shape/get_elements are also asked through Ok(array) for every returned array; option arguments as String / &str / enum; i8 as third byte-sized type; base shapes with zero-length axes in every position and >= 32 elements; refusal stream around zero-length axes; one-step chains on shapes up to 4900 elements; random chains over zero-length / long axes. PART 2: std-trait steps (FromIterator from 29 kinds of exact / over-estimating / unbounded / empty iterators collected three ways, IntoIterator by value and by reference, clone, clone_from through every std path with targets of lower / equal / higher rank, Vec / slice / VecDeque / boxed-slice clone_from between split results, re-entrant closures) with the monitor and a native expectation, on ten element types x 18 base shapes and inside random chains; aliased operands; hidden state: colliding shape groups back to back in both orders through the count-checking constructors / reshapes and 18 further operations, and an A-B-A re-run of every fourth chain's predecessor; ranks 5..8, argument lists of 3..6 unsorted mixed-spelling entries, 65..130 parts, 5..8 arrays; huge arrays (16 384..196 611 elements): linear-model operations as modelled steps, quadratic-model operations as `u.` steps judged by a harness-native shape oracle that the same run validates against the model on every modelled step it speaks about (last case line reports the counts). distinct = distinct chains; non-trivial = some step consumes the result of a step that consumed an earlier result" });
 }
